@@ -40,6 +40,8 @@ def shapes(tier):
         srcs = ['fresh'] + ([s for s in ('admin_row', 'user_row', 'user_admin_row') if s.split('_row')[0] != place] if place != 'right' else [])
         for src in srcs:
             out.append(dict(part='history', place=place, source=src))
+        # a second row carrying the id of an existing row of the same list, with other content
+        out.append(dict(part='history', place=place, source='duplicate_id'))
     out.append(dict(part='history', place=None, source='omission'))
     out.append(dict(part='history', place=None, source='altered'))
     for place in PLACES + [None]:
@@ -101,7 +103,7 @@ def explore_history(ctx, shape, tier, report):
             w.field(node, 'Node', '_json').v = some(w.atom('altered_json', None, 'str'))
         else:
             container = ROOM_ID if place == 'admin' else GROUP_ID
-            if source == 'fresh':
+            if source in ('fresh', 'duplicate_id'):
                 author = w.atom('x_author', KEYS, 'bytes', n=33)
                 date = w.i64('x_date')
                 if place == 'right':
@@ -122,6 +124,12 @@ def explore_history(ctx, shape, tier, report):
                 date = w.field(inner, 'Node', 'mdate').v
                 srcev = {'admin': ev.admins, 'user': ge.users, 'user_admin': ge.user_admins}[src_place][0]
                 extra = dict(kind='user', key=srcev[0], enabled=srcev[2])
+            if source == 'duplicate_id':
+                existing = rows[place][0][1]
+                inner_old = w.field(existing, 'UserNode' if place != 'right' else 'EntityRightNode', 'node').v
+                nid = deref(w.field(inner_old, 'Node', 'id').v)
+                inner_new = w.field(node, 'UserNode' if place != 'right' else 'EntityRightNode', 'node').v
+                w.field(inner_new, 'Node', 'id').v = nid
             e_author = w.atom('x_edge_author', KEYS, 'bytes', n=33)
             e_date = w.i64('x_edge_date')
             e_label = w.atom('x_edge_label', [label_of(ctx, p) for p in PLACES], 'str')
@@ -136,6 +144,16 @@ def explore_history(ctx, shape, tier, report):
                 f = {'user_admin': ('user_admin_edges', 'user_admin_nodes'), 'user': ('user_edges', 'user_nodes'), 'right': ('right_edges', 'right_nodes')}[place]
                 deref(w.field(an, 'AuthorisationNode', f[0]).v).elems.append(Cell(edge))
                 deref(w.field(an, 'AuthorisationNode', f[1]).v).elems.append(Cell(node))
+            if source == 'duplicate_id':
+                # together with an honest-looking addition that really is entitled (so that the definition has something new to store)
+                a2, d2 = w.atom('x2_author', KEYS, 'bytes', n=33), w.i64('x2_date')
+                ctx.assume(entitled(ev, ge, 'user', a2, d2))
+                n2, nid2 = user_row(ctx, w, 'x2row', S(lit=KEYS[1]), d2, True, a2)
+                e2 = w.edge(src=GROUP_ID, src_entity=S(lit='0.1'), label=label_of(ctx, 'user'), dest=nid2, cdate=d2, author=a2)
+                deref(w.field(an, 'AuthorisationNode', 'user_edges').v).elems.append(Cell(e2))
+                deref(w.field(an, 'AuthorisationNode', 'user_nodes').v).elems.append(Cell(n2))
+                extra['legit'] = dict(author=a2, date=d2, key=deref(w.field(w.field(n2, 'UserNode', 'node').v, 'Node', 'id').v))
+                info['legit'] = (a2, d2, n2)
             # the group row itself is presented unchanged (same mdate): only the lists are in question
         info['extra'] = extra
         ra = w.struct('RoomAuthorisations', signing_key=w.signing_key(ADMIN), rooms=MapV([[ROOM_ID, live]]), max_node_size=w.u64('max'))
@@ -157,6 +175,9 @@ def explore_history(ctx, shape, tier, report):
             report.witness('refused')
             return
         report.witness('accepted')
+        applied = res.fields[0].v
+        if applied is False:
+            return          # Ok(false): "nothing new", the candidate is dropped and nothing is stored or registered
         r2 = ctx.exec_fn(parse, [Ref(cc)])
         if r2.variant != 0:
             info['problem'] = 'an accepted definition cannot be parsed into a room'
@@ -174,6 +195,8 @@ def explore_history(ctx, shape, tier, report):
             lists_new.update(user=deref(w.field(auth_new, 'Authorisation', 'users').v), user_admin=deref(w.field(auth_new, 'Authorisation', 'user_admins').v),
                              right=deref(w.field(auth_new, 'Authorisation', 'rights').v))
             old_counts = dict(admin=len(ev.admins), user=len(ge.users), user_admin=len(ge.user_admins), right=len(ge.rights))
+            if 'legit' in extra:
+                old_counts['user'] += 1
             new_count = sum(len(deref(c.v).elems) for _, c in lists_new[place].entries)
             if new_count > old_counts[place]:
                 ok_row = entitled(ev, ge, place, extra['author'], extra['date'])
@@ -302,6 +325,9 @@ def scenario(ctx, m, kind, info):
             d.update(key=c.atom(ex['key']), enabled=c.bool(ex['enabled']))
         else:
             d.update(entity=c.atom(ex['entity']), mutate_self=c.bool(ex['ms']), mutate_all=c.bool(ex['ma']))
+        if 'legit' in ex:
+            a2, d2, n2 = info['legit']
+            d['legit'] = dict(author=c.atom(a2), date=c.int(d2))
         sc['extra'] = d
     sy = info.get('sym')
     if sy:
@@ -311,6 +337,6 @@ def scenario(ctx, m, kind, info):
         return sc
     sc['expect'] = dict(result='Ok')
     sc['what'] = 'prepare_room_node accepts a candidate although: %s (extra row in the %s list, source %s)' % (info.get('problem'), sh.get('place'), sh.get('source'))
-    sc['signature'] = 'merge:%s:%s' % (info['part'], info.get('problem'))
+    sc['signature'] = 'merge:%s:%s%s' % (info['part'], 'duplicate-id:' if sh.get('source') == 'duplicate_id' else '', info.get('problem'))
     sc['preferred'] = bool(info.get('preferred'))
     return sc
